@@ -56,6 +56,27 @@ pub fn directed() -> Vec<(&'static str, Vec<Step>)> {
         let name: &'static str = Box::leak(format!("whole-repertoire-cp{}", page).into_boxed_str());
         out.push((name, vec![d(Op::SetDbCodepage(page)), create("R"), ins("R", rows), Step::Close(CloseMode::IntoInner)]));
     }
+    // a multi-byte character lying across a multiple of the encoder's 1 KiB work buffer (and of 4 KiB / 8 KiB),
+    // under UTF-8 and under the multi-byte pages: the saved bytes must be the encoding of what the API reports
+    for (page, chars) in [(65001, vec!['é', '日', '😀']), (932, vec!['日']), (936, vec!['中']), (949, vec!['한']), (950, vec!['中'])] {
+        let mut rows: Vec<Vec<V>> = Vec::new();
+        let mut i = 0;
+        for k in [1usize, 2, 3, 4, 8] {
+            for &ch in &chars {
+                for back in 1..=3usize {
+                    i += 1;
+                    let prefix = format!("t0x{} ", i);
+                    let mut sv = prefix.clone();
+                    sv.push_str(&"x".repeat(1024 * k - back - prefix.len()));
+                    sv.push(ch);
+                    sv.push_str(" tail");
+                    rows.push(vec![V::Int(i as i32), V::Str(sv)]);
+                }
+            }
+        }
+        let name: &'static str = Box::leak(format!("multi-byte-across-encoder-buffer-cp{}", page).into_boxed_str());
+        out.push((name, vec![d(Op::SetDbCodepage(page)), create("M"), ins("M", rows), Step::Close(CloseMode::IntoInner)]));
+    }
     out.extend(vec![
         (
             "slot-reuse-after-delete",
@@ -173,16 +194,26 @@ pub fn run_steps(rep: &mut Report, steps: &[Step], case: serde_json::Value, fp: 
     }
 }
 
-/// 65,536 references to one string: a second pool entry must appear at the 16-bit refcount cap.
+/// More than 65,535 references to one string: a second pool entry must appear at the 16-bit refcount cap.
+/// (A table holds at most 65,536 rows, so the references come from two string columns of 32,770 rows each;
+/// the scenario is only counted when the library accepted the big insert.)
 fn many_references(rep: &mut Report) {
-    let cols = vec![ColDef::new("K", CT::Int32).key(), ColDef::new("V", CT::Str(0))];
+    let cols = vec![ColDef::new("K", CT::Int32).key(), ColDef::new("V", CT::Str(0)), ColDef::new("W", CT::Str(0))];
     let mut steps = vec![Step::Do(Op::CreateTable { name: "Big".into(), cols })];
-    for chunk in 0..2 {
-        let rows: Vec<Vec<V>> = (0..32_770).map(|i| vec![V::Int(chunk * 40_000 + i + 1), V::s("t0x1 shared by all")]).collect();
-        // 2 x 32,770 = 65,540 references
-        steps.push(Step::Do(Op::Insert { table: "Big".into(), rows }));
-    }
+    // 2 x 32,770 = 65,540 references
+    let rows: Vec<Vec<V>> = (0..32_770).map(|i| vec![V::Int(i + 1), V::s("t0x1 shared by all"), V::s("t0x1 shared by all")]).collect();
+    steps.push(Step::Do(Op::Insert { table: "Big".into(), rows }));
+    // releasing references of the entry that sits at the 16-bit cap (65,535): the count must follow
+    let keq = |k: i32| Some(crate::exprmodel::MExpr::Bin(crate::exprmodel::Bin::Eq, Box::new(crate::exprmodel::MExpr::Col("K".into())), Box::new(crate::exprmodel::MExpr::Lit(V::Int(k)))));
+    steps.push(Step::Do(Op::Delete { table: "Big".into(), cond: keq(1) }));
+    steps.push(Step::Do(Op::Update { table: "Big".into(), sets: vec![("V".into(), V::s("t0x2 on its own"))], cond: keq(2) }));
+    let rejected_before = rep.counters.get("call_err_insertN").copied().unwrap_or(0);
     run_steps(rep, &steps, json!({"kind": "many-references"}), fnv(b"many-references"));
+    if rep.counters.get("call_err_insertN").copied().unwrap_or(0) != rejected_before {
+        rep.inconclusive.push("many-references: the library refused the 32,770-row insert, the refcount cap was not reached".into());
+    } else {
+        rep.count("refcount_cap_reached");
+    }
     rep.count("directed_scenarios");
 }
 
@@ -215,7 +246,7 @@ pub fn run(ctx: &Ctx) -> Report {
                 rep.count("directed_scenarios");
             }
         }
-        if shard == 1 % n && thorough {
+        if shard == 1 % n {
             many_references(&mut rep);
         }
         // the saved file at the string-pool limits (last addressable entry in use; reference counts that only go down)
